@@ -207,7 +207,7 @@ PROPS = {
             {"bin": "pristine", "args": ["srv", "reclaim", 40], "name": "pristine thread reclamation, burst of 40"}],
         "replay_bin": "controlled", "oracle_col": "C20", "agree_col": "aC20",
         "rule": "same pool scenarios continued: gates opened, virtual time advanced past the idle period, live worker threads counted; then the pool is dropped and time advanced again",
-        "required_tags": ["timeoutwake:1", "burstlive:gt4", "burstlive:le4", "srv:drop-tcp", "srv:drop-unix", "srv:reclaim:40"],
+        "required_tags": ["timeoutwake:1", "burstlive:gt4", "burstlive:le4", "trickle:1", "srv:drop-tcp", "srv:drop-unix", "srv:drop-queued", "srv:reclaim:40"],
         "partial": ["theorem: at most MIN_THREADS untimed waiters / idle pool at baseline / retirement strands no task / accept loop stops after at most one more accept / handed-out requests stay answerable",
                     "observed only: connect() refused after drop, UNIX socket path removed, real thread counts (/proc/self/task)"],
         "assumptions": CTL_ASSUMPTIONS,
@@ -233,11 +233,11 @@ PROPS = {
     },
     "C11": {
         "batches": ctl_batches("ahead", 600, 20000, per=200),
-        "replay_bin": "controlled", "need": ["ahead", "nohang", "seq", "wire", "noabort"], "agr_need": ["ahead", "seq", "wire"],
+        "replay_bin": "controlled", "need": ["ahead", "nohang", "noabort"], "need_intent": False, "agr_need": ["ahead", "seq", "wire"],
         "rule": "pipelines of 2..8 requests with bodies {none, 1, 2..1023, 1024} and optionally a first request with a 1025..9000-byte or chunked body that the application reads "
                 "to EOF on arrival; the application collects ALL requests before answering any (a deadlock — detected by the scheduler — iff read-ahead fails); "
                 "count of requests obtained while none is answered compared with the read-ahead model",
-        "required_tags": ["streamed_first:0", "streamed_first:1", "n:5"],
+        "required_tags": ["streamed_first:0", "streamed_first:1", "park:1", "park:0"],
         "partial": [], "assumptions": CTL_ASSUMPTIONS,
     },
     "C13": {
@@ -262,12 +262,12 @@ PROPS = {
         "assumptions": CONN_ASSUMPTIONS + ["the allocation bound includes the harness's own buffers for the observation (hence the terms in bytes sent/received)"],
     },
     "C15": {
-        "batches": lambda tier: ctl_batches("cut", 15, 600, per=3)(tier) + ctl_batches("resperr", 400, 10000, per=200)(tier),
+        "batches": lambda tier: ctl_batches("cut", 15, 600, per=3)(tier) + ctl_batches("resperr", 400, 10000, per=200)(tier) + ctl_batches("vanish", 100, 2000, per=100)(tier),
         "replay_bin": "controlled", "need": ["results", "nohang", "fresh", "prefix", "nopanic", "noabort"], "need_intent": False, "agr_need": ["heads", "bodies", "seq", "wire", "eof"],
         "rule": "for each conversation: EVERY prefix length (conversations <= 400 bytes; 60 sampled otherwise) followed by half-close, full close or reset, on the in-memory network; "
                 "for responses: server writes failing with BrokenPipe / ConnectionReset / ConnectionAborted / ConnectionRefused after 0..1500 bytes; afterwards a fresh connection must be served; "
                 "predicate: delivered requests are a prefix of the full-stream delivery, every respond() returned Ok, nothing hangs, nothing panics",
-        "required_tags": ["fam:cut", "fam:resperr", "mode:reset", "mode:close", "mode:halfclose", "cut:nothing", "cut:some", "werr:1"],
+        "required_tags": ["fam:cut", "fam:resperr", "fam:vanish", "mode:reset", "mode:close", "mode:halfclose", "cut:nothing", "cut:some", "werr:1"],
         "partial": ["theorem: incomplete head / incomplete small body never delivered, prefix stability of heads, body reads and discard loops never block on a closed stream, respond swallows client-closing errors",
                     "observed only: OS error kinds for a vanished peer, RST semantics, that the accept loop keeps serving (fresh connection)"],
         "assumptions": CTL_ASSUMPTIONS,
